@@ -57,6 +57,8 @@ DeleteFirst ==
   /\ tail' = [tail EXCEPT !.comment = 0]
   /\ UNCHANGED <<nextId, lastReEmitIdentical, init0>>
 
+\* (on every archive the harness also truncates to a prefix - Directory.Truncate with one writer and with two - and
+\* expects the first n members and identical bytes: a pure observation like ReEmit, without an action of its own)
 ReEmit ==
   /\ Len(ops) < MaxOps
   /\ ops' = Append(ops, [op |-> "reemit", kind |-> ""])
